@@ -72,10 +72,12 @@ func evalPure(fn *ssa.Function, arg constant.Value, depth int) (constant.Value, 
 						}
 					}
 				}
-			case *ssa.BinOp, *ssa.UnOp, *ssa.Convert, *ssa.Call, *ssa.ChangeType:
+			case *ssa.BinOp, *ssa.UnOp, *ssa.Convert, *ssa.Call, *ssa.ChangeType, *ssa.Lookup, *ssa.Extract:
 				if v, ok := evalVal(x.(ssa.Value), env, depth); ok {
 					env[x.(ssa.Value)] = v
 				}
+			case *ssa.IndexAddr:
+				// evaluated where it is loaded
 			case *ssa.If:
 				c, ok := evalVal(x.Cond, env, depth)
 				if !ok {
@@ -124,6 +126,55 @@ func evalVal(v ssa.Value, env map[ssa.Value]constant.Value, depth int) (constant
 				return constant.MakeBool(!constant.BoolVal(c)), true
 			}
 		}
+		if x.Op == token.SUB {
+			if c, ok := evalVal(x.X, env, depth); ok && c.Kind() == constant.Int {
+				return constant.UnaryOp(token.SUB, c, 0), true
+			}
+		}
+		// an element of a package-level table that is never written
+		if x.Op == token.MUL {
+			if ia, ok := x.X.(*ssa.IndexAddr); ok {
+				var g *ssa.Global
+				switch b := ia.X.(type) {
+				case *ssa.Global:
+					g = b
+				case *ssa.UnOp:
+					g, _ = b.X.(*ssa.Global)
+				}
+				if g != nil {
+					if k, ok := evalVal(ia.Index, env, depth); ok {
+						if v, _, ok := globalLiteralLookup(g, k); ok {
+							return v, true
+						}
+					}
+				}
+			}
+		}
+	case *ssa.Lookup:
+		if ld, ok := x.X.(*ssa.UnOp); ok && !x.CommaOk {
+			if g, ok := ld.X.(*ssa.Global); ok {
+				if k, ok := evalVal(x.Index, env, depth); ok {
+					if v, _, ok := globalLiteralLookup(g, k); ok {
+						return v, true
+					}
+				}
+			}
+		}
+	case *ssa.Extract:
+		if lk, ok := x.Tuple.(*ssa.Lookup); ok && lk.CommaOk {
+			if ld, ok := lk.X.(*ssa.UnOp); ok {
+				if g, ok := ld.X.(*ssa.Global); ok {
+					if k, ok := evalVal(lk.Index, env, depth); ok {
+						if v, present, ok := globalLiteralLookup(g, k); ok {
+							if x.Index == 0 {
+								return v, true
+							}
+							return constant.MakeBool(present), true
+						}
+					}
+				}
+			}
+		}
 	case *ssa.BinOp:
 		l, ok1 := evalVal(x.X, env, depth)
 		r, ok2 := evalVal(x.Y, env, depth)
@@ -131,6 +182,11 @@ func evalVal(v ssa.Value, env map[ssa.Value]constant.Value, depth int) (constant
 			return nil, false
 		}
 		switch x.Op {
+		case token.ADD, token.SUB, token.MUL:
+			if l.Kind() == constant.Int && r.Kind() == constant.Int {
+				return constant.BinaryOp(l, x.Op, r), true
+			}
+			return nil, false
 		case token.EQL, token.NEQ, token.LSS, token.LEQ, token.GTR, token.GEQ:
 			if l.Kind() == constant.Bool || r.Kind() == constant.Bool {
 				if x.Op == token.EQL {
@@ -747,7 +803,56 @@ func ruleEscapes(p *Program, r *Reporter) {
 		v, _ := constant.Int64Val(tv.Value)
 		return rune(v), true
 	}
+	isChField := isCh
+	isCh = func(e ast.Expr) bool {
+		if isChField(e) {
+			return true
+		}
+		// a local copy of the character
+		id, ok := ast.Unparen(e).(*ast.Ident)
+		if !ok {
+			return false
+		}
+		v, ok := info.ObjectOf(id).(*types.Var)
+		return ok && !v.IsField() && v.Pkg() != nil && v.Parent() != v.Pkg().Scope() && isBasicKind(types.Int32)(v.Type())
+	}
+	helperFailed := false
 	ast.Inspect(reader.Body, func(n ast.Node) bool {
+		// the table kept in a function from character to character: evaluated
+		// for the characters it compares with and for some it does not
+		if ce, ok := n.(*ast.CallExpr); ok && len(ce.Args) == 1 && isCh(ce.Args[0]) {
+			if fobj, ok := calleeObj(info, ce).(*types.Func); ok && fobj.Pkg() != nil && fobj.Pkg().Path() == Mod+"/lexer" {
+				sig := fobj.Type().(*types.Signature)
+				if sig.Results().Len() == 1 && isBasicKind(types.Int32)(sig.Results().At(0).Type()) && isBasicKind(types.Int32)(sig.Params().At(0).Type()) {
+					if sf := p.SSA.FuncValue(fobj); sf != nil {
+						cands := map[rune]bool{'n': true, 'r': true, 't': true, '"': true, '\\': true, '\'': true, 'a': true, 'q': true, 'x': true, '0': true, '/': true, ' ': true}
+						for _, b := range sf.Blocks {
+							for _, ins := range b.Instrs {
+								for _, op := range ins.Operands(nil) {
+									if c, ok := (*op).(*ssa.Const); ok && c.Value != nil && c.Value.Kind() == constant.Int && isBasicKind(types.Int32)(c.Type()) {
+										v, _ := constant.Int64Val(c.Value)
+										cands[rune(v)] = true
+									}
+								}
+							}
+						}
+						for c := range cands {
+							res, ok := evalPure(sf, constant.MakeInt64(int64(c)), 0)
+							if !ok || res.Kind() != constant.Int {
+								helperFailed = true
+								r.Undecided(fmt.Sprintf("escape \\%c", c), p.Pos(ce.Pos()), "the translation function "+fobj.Name()+" cannot be evaluated for this character")
+								continue
+							}
+							v, _ := constant.Int64Val(res)
+							if rune(v) != c || c == 'n' || c == 'r' || c == 't' {
+								found[c] = rune(v)
+								pos[c] = ce.Pos()
+							}
+						}
+					}
+				}
+			}
+		}
 		// the same table written as a switch over the character
 		if sw, ok := n.(*ast.SwitchStmt); ok && sw.Tag != nil && isCh(sw.Tag) {
 			for _, cc := range sw.Body.List {
@@ -796,6 +901,9 @@ func ruleEscapes(p *Program, r *Reporter) {
 		pos[from] = iff.Pos()
 		return true
 	})
+	if helperFailed {
+		return
+	}
 	// C14: "\n \r \t \" \\ ... any other escaped character taken literally"
 	want := map[rune]rune{'n': '\n', 'r': '\r', 't': '\t'}
 	identity := map[rune]bool{'"': true, '\\': true}
